@@ -24,6 +24,12 @@
       (pure isometries, also flagged daggers of unitaries), measurements (destructive or not,
       overriding bits or not), discards, stochastic classical gates and swaps evaluates — without
       error — to a trace-preserving map; `tp_then`, `tp_tensor`; `distribution_normalised`.
+      Global phases (pure scalar boxes of modulus one, `phase_box_listed`, `phase_box_tp`) are in
+      the list: unitaries on no qubit.
+    * square-root scalars: `sqrt(z)` is the pure scalar box of a root `r` of `z`; it doubles to
+      `conj r · r` (`sqrt_box_doubled`), a square root of `|z|²` (`sqrt_box_doubled_sq`) — `1` for
+      `sqrt(-1)`, not `-1` (`sqrt_minus_one`); covered by `pure_circuit_doubled` and
+      `eval_mixed_flag` through `scalar_box_pure` / `LBox.NonMixed.scalar`.
     * the `mixed=True` flag on circuits WITHOUT mixed boxes, whatever `is_mixed` says
       (`eval_mixed_flag`): the mixed evaluation of a well-typed circuit of classical gates on bits
       (Bits, ClassicalGate, Copy, Match, weights, flagged daggers), quantum boxes on qubits, pure
@@ -308,6 +314,29 @@ def C12_counts_glue : Prop :=
 
 /-! ## non-vacuity: concrete, non-trivial instances over the Gaussian integers -/
 
+/-! ## square-root scalars and global phases -/
+
+/-- **sqrt_box_doubled**.  `sqrt(z)` (gates.Sqrt, gates.py:575-583) is a pure scalar box whose value
+    is a square root `r` of its datum `z` (`array = [data ** .5]`), whatever the sign or phase of
+    `z`.  `cqmap.Functor._ar` (cqmap.py:293-295) doubles a pure scalar box to `conj r · r = |r|²` —
+    for a root of `z` that is `|z|`, which is `z` itself only for `z ≥ 0` (see `sqrt_minus_one`
+    below: `sqrt(-1)` doubles to `1`, not to `-1`). -/
+theorem sqrt_box_doubled (r z : R) (_ : r * r = z) (c q p c' q' p' : Nat) :
+    (CBox.ar (.scalar false r) : CQMap R).f c q p c' q' p' = star r * r := rfl
+
+/-- the square of the doubled value is `conj z · z = |z|²`: the doubled value of `sqrt(z)` is a
+    square root of `|z|²`, not of `z²` unless `z` is self-conjugate. -/
+theorem sqrt_box_doubled_sq (r z : R) (h : r * r = z) : (star r * r) * (star r * r) = star z * z := by
+  rw [← h, star_mul]; ring
+
+/-- A global phase (a pure scalar box of modulus one: `scalar(-1)`, `scalar(1j)`, `sqrt(-1)`,
+    `sqrt(1j)`) is a listed box of the trace-preservation clause: a unitary on no qubit. -/
+theorem phase_box_listed (z : R) (h : star z * z = 1) : LBox.Listed ⟨false, .scalar false z⟩ :=
+  .plain _ (.phase z h)
+
+theorem phase_box_tp (z : R) (h : star z * z = 1) :
+    (LBox.eval ⟨false, .scalar false z⟩ : CQMap R).TP := (phase_box_listed z h).tp
+
 section Examples
 open GaussianInt
 
@@ -417,6 +446,50 @@ example : ∃ m, exPure.evalMixed = .ok m ∧ m ≈ CQMap.pure [] [2] exPure.eva
   · exact quantum_box_pure _ _ _ _ allQ_qubit allQ_qubit rfl rfl
   · exact scalar_box_pure _ _
   · exact quantum_box_pure _ _ _ _ allQ_qubit allQ_qubit rfl rfl
+
+/-- **sqrt(-1)**: the box `sqrt(-1)` has the value `i` (`i · i = -1`); its doubled value is
+    `conj i · i = 1` — not the datum `-1` ("abs(sqrt(x)) ** 2 == x" holds for `x ≥ 0` only). -/
+def sqrtMinusOne : G := ⟨0, 1⟩
+
+theorem sqrt_minus_one : sqrtMinusOne * sqrtMinusOne = -1 ∧
+    (CBox.ar (.scalar false sqrtMinusOne) : CQMap G).f 0 0 0 0 0 0 = 1 ∧
+    (CBox.ar (.scalar false sqrtMinusOne) : CQMap G).f 0 0 0 0 0 0 ≠ -1 := by
+  refine ⟨by decide, by decide, by decide⟩
+
+/-- `sqrt(-1) @ Ket(1) >> Y`: a pure circuit with a square-root scalar of a negative datum; the
+    hypotheses of `pure_circuit_doubled` are met (a `sqrt` box is a pure scalar box). -/
+def exSqrt : Circuit G :=
+  ⟨[], [(0, ⟨false, .scalar false sqrtMinusOne⟩),
+        (0, ⟨false, .quantum [] [.qubit 2] ket1⟩),
+        (0, ⟨false, .quantum [.qubit 2] [.qubit 2] Y⟩)]⟩
+
+example : ∃ m, exSqrt.evalMixed = .ok m ∧ m ≈ CQMap.pure [] [2] exSqrt.evalPure := by
+  refine pure_circuit_doubled exSqrt allQ_nil ⟨rfl, rfl, rfl, trivial⟩ ?_
+  intro ob hob
+  simp only [exSqrt, List.mem_cons, List.not_mem_nil, or_false] at hob
+  rcases hob with rfl | rfl | rfl
+  · exact scalar_box_pure _ _
+  · exact quantum_box_pure _ _ _ _ allQ_nil allQ_qubit rfl rfl
+  · exact quantum_box_pure _ _ _ _ allQ_qubit allQ_qubit rfl rfl
+
+/-- Born rule with the phase in place: the amplitude of outcome 0 of `sqrt(-1) @ Ket(1) >> Y` is
+    `i · i = -1`, its weight in the doubled map is `|-1|² = 1` (non-negative), and the circuit followed by
+    a measurement is trace-preserving (`sqrt(-1)` is a phase). -/
+example : exSqrt.evalPure.f 0 0 = -1 ∧ (CQMap.pure [] [2] exSqrt.evalPure).f 0 0 0 0 0 0 = 1 := by
+  refine ⟨by decide, by decide⟩
+
+def exSqrtMeasured : Circuit G := ⟨[], exSqrt.boxes ++ [(0, ⟨false, .measure 1 true false⟩)]⟩
+
+example : ∃ m, exSqrtMeasured.evalMixed = .ok m ∧ m.TP ∧ m.dom = .unit ∧ m.cod = .ofC [2] := by
+  refine trace_preserving exSqrtMeasured ⟨rfl, rfl, rfl, rfl, trivial⟩ ?_
+  intro ob hob
+  simp only [exSqrtMeasured, exSqrt, List.cons_append, List.nil_append, List.mem_cons,
+    List.not_mem_nil, or_false] at hob
+  rcases hob with rfl | rfl | rfl | rfl
+  · exact phase_box_listed _ (by decide)
+  · exact .plain _ (.isometry _ _ _ rfl rfl rfl rfl ket1_isometry)
+  · exact .plain _ (.isometry _ _ _ rfl rfl rfl rfl Y_isometry)
+  · exact .plain _ (.measure _ _ _)
 
 /-- an (unnormalised: times 4) stochastic gate, and the marginal. -/
 def flip : Mat G := ⟨2, 2, fun i j => if i = j then 3 else 1⟩
